@@ -250,4 +250,269 @@ theorem parseSymbol_ok {A : Raw} {key : String} {c : Char} {dflt v : String} (h 
 
 end Parse
 
+/-! ### step 1 of the NFA round trip: the raw parse of `printNfa N` -/
+
+/-- names that survive the NFA text format: `\w+`, not a keyword of the format -/
+def Parse.NfaNameOk (s : String) : Prop :=
+  Parse.isWord s.toList = true ∧ s ∉ ["states", "final", "initial", "input_symbols", "epsilon"]
+
+namespace Parse
+
+/-- the `(p, q, a)` triples `print_nfa` groups into lines -/
+def nfaTrans (N : NFA String String) : List (String × String × String) :=
+  N.delta.flatMap fun e => e.2.map fun q => (e.1.1, q, e.1.2)
+
+/-- what the line parser reads back from `printNfa N` -/
+def nfaRaw (N : NFA String String) : Raw :=
+  { states := sortStrings (dedup N.Q), final := sortStrings (dedup N.F), initial := [N.q0],
+    items := [("states", sortStrings (dedup N.Q)), ("final", sortStrings (dedup N.F)), ("initial", [N.q0]),
+              ("input_symbols", sortStrings (dedup N.Sigma)), ("epsilon", [N.eps])],
+    transitions := transOf (nfaTrans N) }
+
+theorem printNfa_eq (N : NFA String String) :
+    printNfa N = "".intercalate
+      ((["states" ++ " " ++ joinSp (sortStrings (dedup N.Q)), "final" ++ " " ++ joinSp (sortStrings (dedup N.F)),
+        "initial" ++ " " ++ joinSp [N.q0], "input_symbols" ++ " " ++ joinSp (sortStrings (dedup N.Sigma)),
+        "epsilon" ++ " " ++ joinSp [N.eps]] ++ transLines (nfaTrans N)).map (· ++ "\n")) := by
+  unfold printNfa
+  have e1 : ("states " : String) = "states" ++ " " := by decide
+  have e2 : ("final " : String) = "final" ++ " " := by decide
+  have e3 : ("initial " : String) = "initial" ++ " " := by decide
+  have e4 : ("input_symbols " : String) = "input_symbols" ++ " " := by decide
+  have e5 : ("epsilon " : String) = "epsilon" ++ " " := by decide
+  have e6 : ∀ s : String, joinSp [s] = s := fun s => by simp [joinSp]
+  rw [e1, e2, e3, e4, e5, e6, e6]
+  rfl
+
+theorem mem_nfaTrans {N : NFA String String} {t : String × String × String} :
+    t ∈ nfaTrans N ↔ ∃ T, ((t.1, t.2.2), T) ∈ N.delta ∧ t.2.1 ∈ T := by
+  simp only [nfaTrans, List.mem_flatMap, List.mem_map]
+  constructor
+  · rintro ⟨⟨⟨p, a⟩, T⟩, he, q, hq, rfl⟩
+    exact ⟨T, he, hq⟩
+  · rintro ⟨T, he, hq⟩
+    exact ⟨_, he, t.2.1, hq, rfl⟩
+
+theorem nfaTrans_ok {N : NFA String String} (hv : N.valid = true) (hQ : ∀ q, q ∈ N.Q → Parse.NfaNameOk q)
+    (hS : ∀ a, a ∈ N.Sigma → Parse.isWord a.toList = true) (he : Parse.isWord N.eps.toList = true) :
+    ∀ t, t ∈ nfaTrans N → TransOk .nfa t := by
+  intro t ht
+  obtain ⟨T, hm, hq⟩ := mem_nfaTrans.mp ht
+  obtain ⟨hp, ha, hT⟩ := NFA.valid_closed hv hm
+  have hw : isWord t.2.2.toList = true := by
+    rcases ha with ha | ha
+    · exact hS _ ha
+    · rw [ha]; exact he
+  refine ⟨(hQ _ hp).1, (hQ _ hp).2, (hQ _ (hT _ hq)).1, isWord_token hw, ?_⟩
+  have := isWord_ne_nil hw
+  simp only [labelOk]
+  cases h : t.2.2.toList with
+  | nil => exact absurd h this
+  | cons => rfl
+
+theorem parse_print_nfa_raw (N : NFA String String) (hv : N.valid = true) (hQ : ∀ q, q ∈ N.Q → Parse.NfaNameOk q)
+    (hS : ∀ a, a ∈ N.Sigma → Parse.isWord a.toList = true) (he : Parse.isWord N.eps.toList = true) :
+    parseRaw .nfa isWord (printNfa N).toList = .ok (nfaRaw N) := by
+  obtain ⟨hq0, hF, _, hcl⟩ := (NFA.valid_iff N).mp hv
+  have hts := nfaTrans_ok hv hQ hS he
+  have tokQ : ∀ n, n ∈ sortStrings (dedup N.Q) → Token n.toList := fun n hn =>
+    isWord_token (hQ n (mem_sortStrings_dedup.mp hn)).1
+  have tokF : ∀ n, n ∈ sortStrings (dedup N.F) → Token n.toList := fun n hn =>
+    isWord_token (hQ n (hF n (mem_sortStrings_dedup.mp hn))).1
+  have tokS : ∀ n, n ∈ sortStrings (dedup N.Sigma) → Token n.toList := fun n hn =>
+    isWord_token (hS n (mem_sortStrings_dedup.mp hn))
+  have tok0 : ∀ n, n ∈ [N.q0] → Token n.toList := fun n hn => by
+    simp only [List.mem_singleton] at hn; subst hn; exact isWord_token (hQ _ hq0).1
+  have tokE : ∀ n, n ∈ [N.eps] → Token n.toList := fun n hn => by
+    simp only [List.mem_singleton] at hn; subst hn; exact isWord_token he
+  have k1 : Token "states".toList := isWord_token (by decide)
+  have k2 : Token "final".toList := isWord_token (by decide)
+  have k3 : Token "initial".toList := isWord_token (by decide)
+  have k4 : Token "input_symbols".toList := isWord_token (by decide)
+  have k5 : Token "epsilon".toList := isWord_token (by decide)
+  rw [printNfa_eq, parseRaw_join_terminated]
+  · rw [List.map_append, lineWords_append]
+    simp only [List.map_cons, List.map_nil]
+    rw [lineWords_of_ne]
+    · simp only [List.map_cons, List.map_nil, splitWs_kw_joinSp k1 tokQ, splitWs_kw_joinSp k2 tokF,
+        splitWs_kw_joinSp k3 tok0, splitWs_kw_joinSp k4 tokS, splitWs_kw_joinSp k5 tokE]
+      have okQ : ∀ n, n ∈ sortStrings (dedup N.Q) → isWord n.toList = true := fun n hn =>
+        (hQ n (mem_sortStrings_dedup.mp hn)).1
+      have okF : ∀ n, n ∈ sortStrings (dedup N.F) → isWord n.toList = true := fun n hn =>
+        (hQ n (hF n (mem_sortStrings_dedup.mp hn))).1
+      have ok0 : ∀ n, n ∈ [N.q0] → isWord n.toList = true := fun n hn => by
+        simp only [List.mem_singleton] at hn; subst hn; exact (hQ _ hq0).1
+      have hneQ : sortStrings (dedup N.Q) ≠ [] := by
+        intro e
+        have : N.q0 ∈ sortStrings (dedup N.Q) := mem_sortStrings_dedup.mpr hq0
+        rw [e] at this; cases this
+      simp only [List.cons_append, List.nil_append]
+      refine (parseWordLines_cons_ok _ _ (parseWords_states .nfa isWord {} (str_toList _) rfl
+        (nodup_sortStrings_dedup _) hneQ okQ) _).trans ?_
+      refine (parseWordLines_cons_ok _ _ (parseWords_final .nfa isWord _ (str_toList _) (by rfl)
+        (nodup_sortStrings_dedup _) okF) _).trans ?_
+      refine (parseWordLines_cons_ok _ _ (parseWords_initial .nfa isWord _ (names := [N.q0]) (str_toList _) (by rfl)
+        (by simp) ok0) _).trans ?_
+      refine (parseWordLines_cons_ok _ _ (parseWords_keyword .nfa isWord _ (args := sortStrings (dedup N.Sigma))
+        (str_toList _) (by decide) (by rfl)) _).trans ?_
+      refine (parseWordLines_cons_ok _ _ (parseWords_keyword .nfa isWord _ (args := [N.eps])
+        (str_toList _) (by decide) (by rfl)) _).trans ?_
+      rw [parseWordLines_transLines .nfa _ hts]
+      rfl
+    · intro l hl
+      simp only [List.mem_cons, List.not_mem_nil, or_false] at hl
+      rcases hl with rfl | rfl | rfl | rfl | rfl
+      · rw [splitWs_kw_joinSp k1 tokQ]; simp
+      · rw [splitWs_kw_joinSp k2 tokF]; simp
+      · rw [splitWs_kw_joinSp k3 tok0]; simp
+      · rw [splitWs_kw_joinSp k4 tokS]; simp
+      · rw [splitWs_kw_joinSp k5 tokE]; simp
+  · intro l hl
+    rcases List.mem_append.mp hl with hl | hl
+    · simp only [List.mem_cons, List.not_mem_nil, or_false] at hl
+      rcases hl with rfl | rfl | rfl | rfl | rfl
+      · exact newline_not_mem_kw_joinSp k1.newline_not_mem (fun n hn => (tokQ n hn).newline_not_mem)
+      · exact newline_not_mem_kw_joinSp k2.newline_not_mem (fun n hn => (tokF n hn).newline_not_mem)
+      · exact newline_not_mem_kw_joinSp k3.newline_not_mem (fun n hn => (tok0 n hn).newline_not_mem)
+      · exact newline_not_mem_kw_joinSp k4.newline_not_mem (fun n hn => (tokS n hn).newline_not_mem)
+      · exact newline_not_mem_kw_joinSp k5.newline_not_mem (fun n hn => (tokE n hn).newline_not_mem)
+    · exact newline_not_mem_transLines hts l hl
+
+end Parse
+
+/-! ### step 2: the builder checks on that raw parse -/
+namespace Parse
+
+/-- the parsed transition entries, as `(p, a, x)` triples, are the printed ones -/
+theorem nfaRaw_trans_mem (N : NFA String String) (p a x : String) :
+    (p, a, x) ∈ ((nfaRaw N).transitions.map fun t => (t.1, str t.2.1, t.2.2)) ↔ (p, x, a) ∈ nfaTrans N := by
+  show (p, a, x) ∈ ((transOf (nfaTrans N)).map fun t => (t.1, str t.2.1, t.2.2)) ↔ _
+  rw [List.mem_map]
+  constructor
+  · rintro ⟨t0, ht0, he⟩
+    obtain ⟨t, ht, rfl⟩ := mem_transOf.mp ht0
+    simp only [str_toList, Prod.mk.injEq] at he
+    obtain ⟨rfl, rfl, rfl⟩ := he
+    exact ht
+  · intro ht
+    exact ⟨(p, a.toList, x), mem_transOf.mpr ⟨_, ht, rfl⟩, by simp⟩
+
+theorem nfaRaw_trans_closed {N : NFA String String} (hv : N.valid = true) {t : String × Word × String}
+    (ht : t ∈ (nfaRaw N).transitions) : t.1 ∈ N.Q ∧ (str t.2.1 ∈ N.Sigma ∨ str t.2.1 = N.eps) ∧ t.2.2 ∈ N.Q := by
+  have ht0 : t ∈ transOf (nfaTrans N) := ht
+  obtain ⟨t', ht', rfl⟩ := mem_transOf.mp ht0
+  obtain ⟨T, hm, hq⟩ := mem_nfaTrans.mp ht'
+  obtain ⟨hp, ha, hT⟩ := NFA.valid_closed hv hm
+  exact ⟨hp, by simpa using ha, hT _ hq⟩
+
+/-- the round trip, with the parsed NFA described explicitly -/
+theorem parse_print_nfa_explicit (N : NFA String String) (hv : N.valid = true)
+    (hQ : ∀ q, q ∈ N.Q → Parse.NfaNameOk q) (hS : ∀ a, a ∈ N.Sigma → Parse.isWord a.toList = true)
+    (he : Parse.isWord N.eps.toList = true) :
+    ∃ N', Parse.parseNfa (Parse.printNfa N).toList = .ok N' ∧ N'.valid = true ∧
+      N'.Q = sortStrings (dedup N.Q) ∧ N'.Sigma = dedup (sortStrings (dedup N.Sigma)) ∧ N'.q0 = N.q0 ∧
+      N'.F = sortStrings (dedup N.F) ∧ N'.eps = N.eps ∧
+      N'.delta = groupNfa ((nfaRaw N).transitions.map fun t => (t.1, str t.2.1, t.2.2)) := by
+  obtain ⟨hq0, hF, heps, hcl⟩ := (NFA.valid_iff N).mp hv
+  have h0 := parse_print_nfa_raw N hv hQ hS he
+  have h1 : commonChecks (nfaRaw N) [] isWord = .ok (nfaRaw N) := by
+    apply commonChecks_eq_ok
+    · intro e
+      have : N.q0 ∈ sortStrings (dedup N.Q) := mem_sortStrings_dedup.mpr hq0
+      have e' : sortStrings (dedup N.Q) = [] := e
+      rw [e'] at this; cases this
+    · intro q hq
+      show q ∈ sortStrings (dedup N.Q)
+      rw [mem_sortStrings_dedup]
+      simp only [usedStates, mem_dedup, List.mem_append, List.mem_flatMap] at hq
+      rcases hq with (hq | hq) | ⟨t, ht, hq⟩
+      · have : q ∈ [N.q0] := hq
+        simp only [List.mem_singleton] at this; subst this; exact hq0
+      · have : q ∈ sortStrings (dedup N.F) := hq
+        exact hF q (mem_sortStrings_dedup.mp this)
+      · have := nfaRaw_trans_closed hv ht
+        simp only [List.mem_cons, List.not_mem_nil, or_false] at hq
+        rcases hq with rfl | rfl
+        · exact this.1
+        · exact this.2.2
+    · intro q hq
+      have : q ∈ sortStrings (dedup N.Q) := hq
+      exact (hQ q (mem_sortStrings_dedup.mp this)).1
+    · rfl
+  have h2 : parseSymbol (nfaRaw N) "epsilon" 'ε' "_" = .ok N.eps := by rfl
+  have h3 : getSymbolSet (nfaRaw N) "input_symbols"
+      (dedup (((nfaRaw N).transitions.map fun t => str t.2.1).filter (· ≠ N.eps))) =
+      .ok (dedup (sortStrings (dedup N.Sigma))) := by
+    have hl : (nfaRaw N).items.lookup "input_symbols" = some (sortStrings (dedup N.Sigma)) := by rfl
+    have hsub : ssubset (dedup (((nfaRaw N).transitions.map fun t => str t.2.1).filter (· ≠ N.eps)))
+        (sortStrings (dedup N.Sigma)) = true := by
+      rw [ssubset_iff]
+      intro a ha
+      rw [mem_dedup, List.mem_filter] at ha
+      obtain ⟨ha, hne⟩ := ha
+      obtain ⟨t, ht, rfl⟩ := List.mem_map.mp ha
+      rcases (nfaRaw_trans_closed hv ht).2.1 with h | h
+      · exact mem_sortStrings_dedup.mpr h
+      · simp [h] at hne
+    unfold getSymbolSet
+    rw [hl]
+    generalize dedup (((nfaRaw N).transitions.map fun t => str t.2.1).filter (· ≠ N.eps)) = used at hsub
+    simp [hsub]
+  have h4 : wordsOk (dedup (sortStrings (dedup N.Sigma))) = true := by
+    simp only [wordsOk, List.all_eq_true]
+    intro a ha
+    exact hS a (by simpa using ha)
+  have hparse := parseNfa_eq_of h0 h1 h2 h3 h4
+  have hvalid : NFA.valid
+      { Q := (nfaRaw N).states, Sigma := dedup (sortStrings (dedup N.Sigma)),
+        delta := groupNfa ((nfaRaw N).transitions.map fun t => (t.1, str t.2.1, t.2.2)), q0 := initialOf (nfaRaw N),
+        F := (nfaRaw N).final, eps := N.eps : NFA String String } = true := by
+    rw [NFA.valid_iff]
+    refine ⟨?_, ?_, ?_, ?_⟩
+    · show N.q0 ∈ sortStrings (dedup N.Q)
+      exact mem_sortStrings_dedup.mpr hq0
+    · intro f hf
+      have : f ∈ sortStrings (dedup N.F) := hf
+      show f ∈ sortStrings (dedup N.Q)
+      exact mem_sortStrings_dedup.mpr (hF f (mem_sortStrings_dedup.mp this))
+    · show N.eps ∉ dedup (sortStrings (dedup N.Sigma))
+      simpa using heps
+    · intro q a T hm
+      obtain ⟨⟨x, hx⟩, hall⟩ := groupNfa_mem hm
+      have key : ∀ y, (q, a, y) ∈ ((nfaRaw N).transitions.map fun t => (t.1, str t.2.1, t.2.2)) →
+          q ∈ N.Q ∧ (a ∈ N.Sigma ∨ a = N.eps) ∧ y ∈ N.Q := by
+        intro y hy
+        obtain ⟨t, ht, het⟩ := List.mem_map.mp hy
+        simp only [Prod.mk.injEq] at het
+        obtain ⟨rfl, rfl, rfl⟩ := het
+        exact nfaRaw_trans_closed hv ht
+      refine ⟨?_, ?_, ?_⟩
+      · show q ∈ sortStrings (dedup N.Q); exact mem_sortStrings_dedup.mpr (key x hx).1
+      · show a ∈ dedup (sortStrings (dedup N.Sigma)) ∨ a = N.eps
+        rcases (key x hx).2.1 with h | h
+        · exact Or.inl (by simpa using h)
+        · exact Or.inr h
+      · intro y hy
+        show y ∈ sortStrings (dedup N.Q); exact mem_sortStrings_dedup.mpr (key y (hall y hy)).2.2
+  refine ⟨_, hparse.trans (by simp only [NFA.checked, hvalid]; rfl), hvalid, rfl, rfl, rfl, rfl, rfl, rfl⟩
+
+/-- the successor sets read back are the printed ones (distinct keys in `δ`) -/
+theorem nfaRaw_succ (N : NFA String String) (hk : (N.delta.map (·.1)).Nodup) (q a x : String) :
+    x ∈ ((groupNfa ((nfaRaw N).transitions.map fun t => (t.1, str t.2.1, t.2.2))).lookup (q, a)).getD [] ↔
+      x ∈ N.succ q a := by
+  rw [mem_groupNfa_lookup, nfaRaw_trans_mem, mem_nfaTrans]
+  unfold NFA.succ
+  constructor
+  · rintro ⟨T, hm, hx⟩
+    rw [(C16b.lookup_eq_some_iff_mem hk (q, a) T).mpr hm]
+    exact hx
+  · intro hx
+    cases hl : N.delta.lookup (q, a) with
+    | none => rw [hl] at hx; cases hx
+    | some T =>
+      rw [hl] at hx
+      exact ⟨T, mem_of_lookup_eq_some hl, hx⟩
+
+end Parse
+
 end Gamba
